@@ -48,7 +48,7 @@ def _make_logical_func(docstring, array_op, float_op):
         if np.isnan(other):
             return sc.Stairs._new(np.nan, None, closed=self.closed)
         elif other == 0:
-            return sc.Stairs._new(0, None, closed=self.closed)
+            return self.make_boolean() * 0
         else:
             return self.make_boolean()
 
@@ -58,7 +58,7 @@ def _make_logical_func(docstring, array_op, float_op):
         elif other == 0:
             return self.make_boolean()
         else:
-            return sc.Stairs._new(1, None, closed=self.closed)
+            return self.make_boolean() * 0 + 1
 
     def _op_with_scalar_xor(self, other):
         if np.isnan(other):
